@@ -844,6 +844,25 @@ def c05l(prog, rep):
               where="%s:%d" % (b.file, b.line), instance={"searches": [(nm, sorted(k), ex) for _, nm, k, ex in searches]})
 
 
+def c05q(prog, rep, R="C05.q"):
+    """C05.q — which statement an `else` (or any other continuation keyword) belongs to is decided from the state the context stack keeps
+    itself: a context is marked ended by `update_statuses` when its terminator is consumed, and the statement parsers ask that mark.  The
+    stack of enclosing contexts is scanned only by the context type's own methods and by the reviewed questions `is_in_statement`,
+    `is_in_type_decl`, `get_last_context*`, `get_context_level`, `parse_structures`, `parse_routine`.  A statement parser that looks through the
+    stack for one particular enclosing kind (`any(|c| c.context_type == Statement(Case))`) answers for that kind only: the `else` section
+    of try/except after `on E: T do if A then while B do C;` is then attached to the `if`, and its lines are rendered one level deep inside
+    the handler."""
+    import layout
+    rd = sorted({a[0].npath.split("::{closure")[0] for a in prog.field_accesses(P + "ParserContexts", "contexts") if "core::fmt::Debug" not in a[0].npath and "::tests::" not in a[0].npath})
+    LLP = P + "InternalDelphiLogicalLineParser::"
+    reviewed = [P + "ParserContexts::" + m for m in ("update_statuses", "push", "pop", "get_ending_context_idx")] + \
+               [LLP + m for m in ("parse_structures", "is_in_statement", "parse_routine", "get_last_context", "get_last_context_type", "get_context_level", "is_in_type_decl")]
+    layout.inventory(rep, R, "functions that scan the stack of parser contexts", rd, reviewed,
+                     "whether an enclosing statement has ended is the `is_ended` mark of its context; a scan for one enclosing kind misses the other kinds with the same shape (case / try-except both have an `else` section after `;`)",
+                     helpers=False)   # every parser function is (transitively) called from parse_structures: "a helper of reviewed code" would accept them all
+    rep.floor(R, "readers of ParserContexts.contexts", len(rd), 8)
+
+
 def check_c05(prog, rep, tier, cfg):
     c05e(prog, rep)
     c05a(prog, rep)
@@ -859,6 +878,7 @@ def check_c05(prog, rep, tier, cfg):
     c05m(prog, rep)
     c05n(prog, rep)
     c05o(prog, rep)
+    c05q(prog, rep)
     # C05.p — a line that is wrapped again after its strings were rewritten is wrapped from the line the first pass wrapped it from, at
     # any nesting depth: from an intermediate child line it would be laid out as a top-level line, one or more levels too far left
     # (shared with C03.i / C10.d)
